@@ -69,7 +69,7 @@ def ptyOf (k : Kind) (a : Act) (row : Nat) : Record.PTy :=
   | .axisPos _ => .firstChar
   | .linePos _ => .scalar 'f'
   | .fpoint _ lo hi _ => .point lo hi
-  | .intervals _ _ _ => .countOrLog
+  | .intervals _ _ _ _ => .countOrLog
   | .align _ => .alignFlags
   | .clip _ => .clipAxes
 
